@@ -65,6 +65,12 @@ func NewInterpFS(fsys fstest.MapFS) *interp.Interpreter {
 		opt.SourcecodeFilesystem = fsys
 		opt.GoPath = "./_pkg"
 	}
+	return NewInterpOpt(opt)
+}
+
+// NewInterpOpt returns an interpreter with the given options and the harness's
+// symbol tables.
+func NewInterpOpt(opt interp.Options) *interp.Interpreter {
 	i := interp.New(opt)
 	if err := i.Use(stdlib.Symbols); err != nil {
 		panic(err)
